@@ -83,7 +83,9 @@ class Runner:
 
     def writer(self, w):
         if w not in self.writers:
-            self.writers[w] = procs.SqlWriter(self.db, w)
+            # writer_uri: query string for the SQLite connections of this run (e.g. "psow=0")
+            q = getattr(self, "writer_uri", "")
+            self.writers[w] = procs.SqlWriter(("file:%s?%s" % (self.db, q)) if q else self.db, w)
         return self.writers[w]
 
     # ---- handle steps
